@@ -3,9 +3,10 @@
 (* argument choice) builds a storage state; at GenDepth calls the program is printed *)
 (* together with NCases corruption cases per stack chosen over the PHYSICAL PARTS of *)
 (* the model state reached: each part of AllParts(S, stack) is damaged with probability *)
-(* CorrNum/CorrDen by a random applicable kind; the first case of every program      *)
-(* damages exactly one part (so sharers and non-sharers are told apart), the second  *)
-(* damages nothing (no intact object may be reported).  No expected results.         *)
+(* CorrNum/CorrDen by a random applicable kind.  Cases 1-4 of every program are       *)
+(* directed: one part (preferably shared by several current objects), nothing, the   *)
+(* last part of a multi-part object, a part no current object references.            *)
+(* No expected results.                                                              *)
 EXTENDS Integrity, PithosGen
 
 CONSTANTS NCases, CorrNum, CorrDen
@@ -14,21 +15,66 @@ RandCorr(St, stack) ==
   LET P == AllParts(St, stack)
       Q == {p \in P : RandomElement(1..CorrDen) <= CorrNum}
   IN {[store |-> p.store, c |-> p.c, kind |-> RandomElement(KindsFor(p))] : p \in Q}
+\* one damaged part, chosen where it tells most: a part shared by two or more current objects
+\* if there is one, else a part of a current object, else any part (noncurrent / pending upload)
+Sharers(St, stack, p) == {o \in Cur(St) : p \in PartRefs(stack, CurV(St, o))}
 OneCorr(St, stack) ==
-  LET P == AllParts(St, stack) IN
+  LET P == AllParts(St, stack)
+      P2 == {p \in P : Cardinality(Sharers(St, stack, p)) >= 2}
+      P1 == {p \in P : Sharers(St, stack, p) # {}}
+      T == IF P2 # {} /\ RandomElement(1..4) # 1 THEN P2 ELSE IF P1 # {} THEN P1 ELSE P IN
   IF P = {} THEN {}
-  ELSE LET p == RandomElement(P) IN {[store |-> p.store, c |-> p.c, kind |-> RandomElement(KindsFor(p))]}
+  ELSE LET p == RandomElement(T) IN {[store |-> p.store, c |-> p.c, kind |-> RandomElement(KindsFor(p))]}
+\* the LAST part of a current object with two or more parts (a validator that stops early,
+\* or looks at the first part only, misses it)
+TailCorr(St, stack) ==
+  LET M2 == {o \in Cur(St) : Len(CurV(St, o).parts) >= 2}
+      M == {o \in M2 : \A q \in M2 : Len(CurV(St, q).parts) <= Len(CurV(St, o).parts)} IN
+  IF M = {} THEN OneCorr(St, stack)
+  ELSE LET o == RandomElement(M)
+           p == PartRef(stack, CurV(St, o), Len(CurV(St, o).parts))
+       IN {[store |-> p.store, c |-> p.c, kind |-> RandomElement(KindsFor(p))]}
+\* a part that NO current object references (noncurrent version, pending upload): nothing may be reported
+HiddenCorr(St, stack) ==
+  LET H == {p \in AllParts(St, stack) : Sharers(St, stack, p) = {}} IN
+  IF H = {} THEN RandCorr(St, stack)
+  ELSE LET p == RandomElement(H) IN {[store |-> p.store, c |-> p.c, kind |-> RandomElement(KindsFor(p))]}
 CaseAt(St, stack, i) ==
-  [corr |-> SetToSeq(IF i = 1 THEN OneCorr(St, stack) ELSE IF i = 2 THEN {} ELSE RandCorr(St, stack)),
+  [corr |-> SetToSeq(CASE i = 1 -> OneCorr(St, stack) [] i = 2 -> {} [] i = 3 -> TailCorr(St, stack)
+                       [] i = 4 -> HiddenCorr(St, stack) [] OTHER -> RandCorr(St, stack)),
    del |-> IF i <= 2 THEN i = 1 ELSE RandomElement(BOOLEAN)]
 CasesFor(St, stack) == [i \in 1..NCases |-> CaseAt(St, stack, i)]
 
 \* operation weights of the state-building walk: writes that create part structures dominate
-IOpW == <<"CreateBucket", "PutVersioning", "PutObject", "PutObject", "PutObject", "PutObject", "DeleteObject",
+IOpW == <<"CreateBucket", "PutVersioning", "PutVersioning", "PutObject", "PutObject", "PutObject", "PutObject", "DeleteObject",
           "CopyObject", "CopyObject", "AppendObject", "AppendObject", "AppendObject", "CreateUpload", "CreateUpload",
           "UploadPart", "UploadPart", "UploadPart", "UploadPartCopy", "CompleteUpload", "CompleteUpload", "Transition">>
 IOpWSel == SelectSeq(IOpW, LAMBDA o : o \in Ops)
-IGenNext == Step(RandCall(RW(IOpWSel), S))
+\* Directed steps (one draw in three): finish what makes multi-part objects - complete an upload
+\* that has parts, add the next part to a pending upload, append to an existing object.
+UpsWithParts(St) == {i \in 1..Len(St.ups) : St.ups[i].parts # <<>> /\ \A j \in 1..Len(St.ups[i].parts) : St.ups[i].parts[j].n = j}
+CurObjs(St) == {o \in Buckets \X Keys : Exists(St, o[1]) /\ HasCurrent(St.objs[o[1]][o[2]])}
+WithFields(op, base) == LET t == CHOOSE c \in {x \in Calls(S) : x.op = op} : TRUE
+                        IN [f \in DOMAIN t |-> IF f \in DOMAIN base THEN base[f] ELSE t[f]]
+Directed(St) ==
+  LET r == R(1..3) IN
+  IF r = 1 /\ UpsWithParts(St) # {} /\ "CompleteUpload" \in Ops
+  THEN LET u == St.ups[R(UpsWithParts(St))] IN
+       [op |-> "CompleteUpload", b |-> u.b, k |-> u.k, u |-> u.uid, manifest |-> "all", cond |-> "none"]
+  ELSE IF r = 2 /\ St.ups # <<>> /\ "UploadPart" \in Ops
+  THEN LET u == St.ups[R(1..Len(St.ups))] IN
+       WithFields("UploadPart", [op |-> "UploadPart", b |-> u.b, k |-> u.k, u |-> u.uid,
+                                 n |-> IF Len(u.parts) < MaxParts THEN Len(u.parts) + 1 ELSE MaxParts, blob |-> R(Blobs)])
+  ELSE IF CurObjs(St) # {} /\ "AppendObject" \in Ops
+  THEN LET o == R(CurObjs(St)) IN
+       WithFields("AppendObject", [op |-> "AppendObject", b |-> o[1], k |-> o[2], blob |-> R(Blobs), off |-> "none"])
+  ELSE RandCall(RW(IOpWSel), St)
+\* up to three draws: prefer a call that succeeds in the model (failing calls still occur)
+Succeeds(c) == Apply(S, c).r.err = ""
+IGenNext == LET c1 == IF R(1..3) = 1 THEN Directed(S) ELSE RandCall(RW(IOpWSel), S)
+                c2 == RandCall(RW(IOpWSel), S)
+                c3 == RandCall(RW(IOpWSel), S)
+            IN Step(IF Succeeds(c1) THEN c1 ELSE IF Succeeds(c2) THEN c2 ELSE c3)
 
 IEmit == IF Len(hist) = GenDepth
          THEN PrintT(ToJson([calls |-> hist, cases |-> [fs |-> CasesFor(S, "fs"), classes |-> CasesFor(S, "classes")]]))
